@@ -24,7 +24,9 @@ LEVEL_TEXT = ('Exploration: random byte strings, every truncation and single-byt
               'concatenations, oversized lines/header counts, bad lengths, foreign protocols and non-UTF-8 bytes in '
               'every field, each under several segmentations, against the real handler in proxy and proxy+web-server '
               'configurations. Decided on the client-side transcript by h11 plus an outcome classifier.')
-LEVEL_NOTE = 'Trusted: h11 as judge of response well-formedness and of request completeness; AF_UNIX delivery is synchronous so quiescence is decided on loop iterations.'
+LEVEL_NOTE = ('Trusted: h11 as judge of response well-formedness; request completeness needs h11 and a strict CRLF-only '
+              'RFC 9112 reading (rig/refcodec) to agree, since h11 also accepts bare LF; AF_UNIX delivery is synchronous so '
+              'quiescence is decided on loop iterations.')
 TECHNIQUE = 'runtime monitoring of the client transcript: h11 response validation + outcome classifier (served / rejected+closed / waiting / closed)'
 RULE = ('case = (input class, base request, position/mutation, segmentation, config); non-trivial = the proxy produced '
         'output or closed; distinct = input bytes x segmentation')
